@@ -22,6 +22,7 @@ import (
 )
 
 func init() {
+	commands["c13golden"] = runC13Golden
 	commands["c13"] = runC13
 	commands["c13child"] = runC13Child
 }
@@ -256,6 +257,10 @@ func runC13(ctx *Ctx) {
 			continue
 		}
 		c13Readers(ctx, i)
+	}
+	// (f) a database written by the pinned driver, opened by the current one
+	if ctx.Want(100000) {
+		c13Golden(ctx, 100000)
 	}
 }
 
